@@ -630,3 +630,6 @@ def cdm_unit(fname, trap_name, row_var, col_var, trap_var, extra_kw):
 unit("C15", "cdm.parallel")(cdm_unit("run_cdm_parallel", "no", "i", "j", "k",
                                       lambda ex: {"charge_injection": VBool(z3.Bool("charge_injection")), "chg_inj_parallel_transfers": VInt(z3.Int("n_transfers"))}))
 unit("C15", "cdm.serial")(cdm_unit("run_cdm_serial", "sno", "i", "j", "k", lambda ex: {}))
+
+
+from . import C15w  # noqa: E402,F401  (the model functions around the kernels)
